@@ -15,5 +15,6 @@ CONSTANTS
   SlackKinds2 = {"ext_grid"}
   SlackPos2 = {0}
   PV2s = {FALSE}
+  TrafoKinds2 = {"t150"}
   MaxIslands = 2
 INVARIANT D_BfswSound
